@@ -3,6 +3,7 @@ package vharn
 import (
 	"net/http"
 	"net/url"
+	"strings"
 
 	"github.com/johannesboyne/gofakes3/internal/vsym"
 )
@@ -66,6 +67,9 @@ func VH_C13() {
 	vsym.Assert(Do(h, Req{Method: "PUT", Path: "/bkt"}).Code() == 200, "C13/create-bucket")
 	m := &verModel{stack: map[string][]verEntry{}, fuzzy: map[string]bool{}}
 	keys := []string{"j", "k"}
+	if vsym.Param("slashkey", 0) == 1 {
+		keys[1] = "k/x"
+	}
 	if vsym.Param("startenabled", 1) == 1 {
 		vsym.Assert(setVersioning(h, "Enabled").Code() == 200, "C13/enable")
 		m.mode = 1
@@ -74,7 +78,7 @@ func VH_C13() {
 	for i := 0; i < n; i++ {
 		c05Step(h, m, keys)
 	}
-	total := len(m.stack["j"]) + len(m.stack["k"])
+	total := len(m.stack[keys[0]]) + len(m.stack[keys[1]])
 	if total == 0 {
 		vsym.Assume(false)
 	}
@@ -83,14 +87,97 @@ func VH_C13() {
 	if paged {
 		maxKeys = 1 + vsym.Choice("maxkeys", total+1)
 	}
-	var all []VersionEntry
+	all, _, ok := c13Walk(h, "", "", maxKeys, total)
+	if !ok {
+		return
+	}
+	// grouped by key in ascending key order
+	var js, ks []VersionEntry
+	seenK := false
+	for _, it := range all {
+		if it.Key == keys[0] {
+			vsym.Assert(!seenK, "C13/grouped-by-ascending-key")
+			js = append(js, it)
+		} else {
+			vsym.Assert(it.Key == keys[1], "C13/unknown-key")
+			seenK = true
+			ks = append(ks, it)
+		}
+	}
+	checkVersionGroup(js, m.stack[keys[0]], m.mode)
+	checkVersionGroup(ks, m.stack[keys[1]], m.mode)
+	if len(js) != len(m.stack[keys[0]]) || len(ks) != len(m.stack[keys[1]]) {
+		return
+	}
+
+	switch vsym.Choice("probe", 4) {
+	case 1:
+		// a marker pair naming an existing version: the listing resumes at it
+		i := vsym.Choice("from", len(all))
+		q := url.Values{"versions": {""}, "key-marker": {all[i].Key}, "version-id-marker": {all[i].VersionID}}
+		r := Do(h, Req{Method: "GET", Path: "/bkt", Query: q, Header: http.Header{}})
+		v := r.Versions()
+		vsym.Assert(r.Code() == 200 && v.OK, "C13/named-marker/status")
+		if v.OK {
+			vsym.Assert(!v.IsTruncated, "C13/named-marker/truncated")
+			vsym.Assert(sameVersionEntries(v.Items, all[i:]), "C13/named-marker/resumes-at-the-named-version")
+		}
+	case 2:
+		// a prefix selecting one key, walked with the same page size
+		got, _, ok := c13Walk(h, keys[1], "", maxKeys, total)
+		if ok {
+			vsym.Assert(sameVersionEntries(got, ks), "C13/prefix/exactly-the-matching-versions")
+		}
+		none, _, ok := c13Walk(h, "zz", "", maxKeys, total)
+		if ok {
+			vsym.Assert(len(none) == 0, "C13/prefix/no-match-is-empty")
+		}
+	case 3:
+		// a delimiter: keys containing it are rolled up, the others listed
+		got, prefixes, ok := c13Walk(h, "", "/", maxKeys, total)
+		if ok {
+			if strings.Contains(keys[1], "/") {
+				vsym.Assert(sameVersionEntries(got, js), "C13/delimiter/ungrouped-versions")
+				want := []string{}
+				if len(ks) > 0 {
+					want = []string{keys[1][:strings.Index(keys[1], "/")+1]}
+				}
+				vsym.Assert(sameStrings(prefixes, want), "C13/delimiter/common-prefixes")
+			} else {
+				vsym.Assert(sameVersionEntries(got, all), "C13/delimiter/ungrouped-versions")
+				vsym.Assert(len(prefixes) == 0, "C13/delimiter/common-prefixes")
+			}
+		}
+	}
+	vsym.Reach("C13/done")
+}
+
+func sameVersionEntries(a, b []VersionEntry) bool {
+	if len(a) != len(b) {
+		return false
+	}
+	same := true
+	for i := range a {
+		same = vsym.And(same, a[i] == b[i])
+	}
+	return same
+}
+
+// c13Walk pages through ListObjectVersions with the markers the server supplies.
+func c13Walk(h http.Handler, prefix, delimiter string, maxKeys, total int) (all []VersionEntry, prefixes []string, ok bool) {
 	keyMarker, verMarker := "", ""
 	for page := 0; ; page++ {
 		vsym.Assert(page <= total+1, "C13/terminates")
 		if page > total+1 {
-			return
+			return nil, nil, false
 		}
 		q := url.Values{"versions": {""}, "max-keys": {itoa(maxKeys)}}
+		if prefix != "" {
+			q.Set("prefix", prefix)
+		}
+		if delimiter != "" {
+			q.Set("delimiter", delimiter)
+		}
 		if keyMarker != "" {
 			q.Set("key-marker", keyMarker)
 			if verMarker != "" {
@@ -102,35 +189,29 @@ func VH_C13() {
 		v := r.Versions()
 		vsym.Assert(v.OK, "C13/document")
 		if !v.OK {
-			return
+			return nil, nil, false
 		}
 		vsym.Assert(len(v.Items) <= maxKeys, "C13/page-size")
 		all = append(all, v.Items...)
+		for _, p := range v.Prefixes {
+			dup := false
+			for _, o := range prefixes {
+				if o == p {
+					dup = true
+				}
+			}
+			vsym.Assert(!dup, "C13/common-prefix-repeated")
+			prefixes = append(prefixes, p)
+		}
 		if !v.IsTruncated {
-			break
+			return all, prefixes, true
 		}
 		vsym.Reach("C13/truncated")
 		vsym.Assert(v.NextKeyMarker != "", "C13/truncated-has-key-marker")
 		vsym.Assert(v.NextVersionIDMarker != "", "C13/truncated-has-version-marker")
 		if v.NextKeyMarker == "" {
-			return
+			return nil, nil, false
 		}
 		keyMarker, verMarker = v.NextKeyMarker, v.NextVersionIDMarker
 	}
-	// grouped by key in ascending key order
-	var js, ks []VersionEntry
-	seenK := false
-	for _, it := range all {
-		if it.Key == "j" {
-			vsym.Assert(!seenK, "C13/grouped-by-ascending-key")
-			js = append(js, it)
-		} else {
-			vsym.Assert(it.Key == "k", "C13/unknown-key")
-			seenK = true
-			ks = append(ks, it)
-		}
-	}
-	checkVersionGroup(js, m.stack["j"], m.mode)
-	checkVersionGroup(ks, m.stack["k"], m.mode)
-	vsym.Reach("C13/done")
 }
